@@ -134,8 +134,17 @@ def install_shims():
     import logging
 
     logging.disable(logging.CRITICAL)
-    _memoize_awesomeversion()
+    _memoize_awesomeversion_once()
     _SHIMS_INSTALLED = True
+
+
+_AV_DONE = [False]
+
+
+def _memoize_awesomeversion_once():
+    if not _AV_DONE[0]:
+        _AV_DONE[0] = True
+        _memoize_awesomeversion()
 
 
 def _memoize_awesomeversion():
